@@ -15,7 +15,8 @@ TABLES = {
     "s": ('CREATE TABLE "s" ("id" INTEGER PRIMARY KEY, "tid", "x", "a")', ["id", "tid", "x", "a"]),
 }
 N_ROWS = [(1, 7, 3, 2, 0), (2, 11, 5, 3, 1), (3, 13, 2, 7, 5), (4, 5, 11, 3, 2), (5, 17, 13, 19, 3), (6, 23, 29, 31, 4)]
-STR_POOL = ["abc", "x", "it's", "", "2020-01-01", "é✓", "a,b),(c", "--c", "/*x*/", "l1\nl2", "back\\slash", 'say "hi"', "%x_", " "]
+STR_POOL = ["abc", "x", "it's", "", "2020-01-01", "é✓", "a,b),(c", "--c", "/*x*/", "l1\nl2", "back\\slash", 'say "hi"', "%x_", " ",
+            "C:\\data\\", "\\", "{x}", "100%"]
 INT_POOL = [0, 1, 2, 3, 7, 10, -1, -5, 42, 10 ** 12]
 FLOAT_POOL = [1.5, -2.25, 0.1, 1e20, 3.0]
 
@@ -32,9 +33,10 @@ def seed_rows(seed):
         if x < 0.9:
             return r.choice(STR_POOL[:6])
         return r.choice(FLOAT_POOL)
-    t = [(i + 1, r.choice([1, 2, 2, 3, None, 7]), val(), r.choice(["abc", "x", None, "it's", "5"]), r.choice([1.5, None, 3.0, -2.25]))
+    t = [(i + 1, r.choice([1, 2, 2, 3, None, 7]), val(), r.choice(["abc", "x", None, "it's", "5", "C:\\data\\", "\\"]), r.choice([1.5, None, 3.0, -2.25]))
          for i in range(r.choice([5, 6, 8]))]
     t.append(t[1][:0] + (len(t) + 1,) + t[1][1:])          # a duplicate of row 2 (apart from the key)
+    t.append((len(t) + 1, 2, "\\", "C:\\data\\", 1.5))       # strings ending in a backslash are data like any other
     u = [(i + 1, r.choice([1, 2, 3, 10]), val(), val()) for i in range(r.choice([3, 4, 6]))]
     u.append((len(u) + 1,) + u[0][1:])
     k = [(a, val(), val()) for a in r.sample([1, 2, 3, "abc", "x", 7], 4)] + [(None, 1, None), (None, 1, None)]
@@ -173,8 +175,11 @@ def explicit(t, params):
     if k == "notnull":
         return "(%s IS NOT NULL)" % explicit(t[1], params)
     if k == "in":
-        if t[2][0] != "tuple" or not t[2][1]:
+        if t[2][0] != "tuple":
             raise NotJudged("container")
+        if not t[2][1]:
+            # membership in the EMPTY list: no row qualifies / every row qualifies (NULL operands included)
+            return "(1)" if t[3] else "(0)"
         a = explicit(t[1], params)
         items = [explicit(x, params) for x in t[2][1]]
         return "(%s %sIN (%s))" % (a, "NOT " if t[3] else "", ", ".join(items))
